@@ -26,10 +26,9 @@ Definition enc_float (bits : Z) : bytes :=
 Definition zbytes (n : Z) : bytes :=
   if n <=? 0 then [] else be_enc (Z.to_nat (Z.log2 n / 8 + 1)) n.
 
+(* big.Int: BigIntConvertNone, always a tag 2 / tag 3 bignum *)
 Definition enc_big (n : Z) : bytes :=
-  if (0 <=? n) && (n <? 2 ^ 64) then enc_head 0 n
-  else if (n <? 0) && (- 2 ^ 64 <=? n) then enc_head 1 (-1 - n)
-  else if 0 <=? n then 194 :: enc_bstr (zbytes n)
+  if 0 <=? n then 194 :: enc_bstr (zbytes n)
   else 195 :: enc_bstr (zbytes (-1 - n)).
 
 (* insertion sort of encoded (key,value) pairs, bytewise on the key *)
